@@ -100,7 +100,10 @@ trait CharExt: Sized {
 
 impl CharExt for char {
     fn has_casing(self) -> bool {
+        // Titlecase letters like `ǅ` are neither lowercase nor uppercase, but map to both.
         self.is_lowercase() != self.is_uppercase()
+            || !self.to_lowercase().eq([self])
+            || !self.to_uppercase().eq([self])
     }
 }
 
